@@ -10,8 +10,6 @@ Traces == JsonDeserialize(IOEnv.TRACE_FILE)
 VARIABLE tid
 tvars == <<st, n, tid>>
 
-RECURSIVE Flat(_)
-Flat(ss) == IF Len(ss) = 0 THEN <<>> ELSE Head(ss) \o Flat(Tail(ss))
 EvMems(s) == [e \in Range(Len(s.ev)) |-> s.ems[s.ev[e]].mem]
 TcMems(s) == Flat([c \in Range(Len(s.tcs)) |-> Flat([i \in Range(Len(s.tcs[c].ems)) |-> s.ems[s.tcs[c].ems[i]].mem])])
 DropSlots(s) == s.refs \o Flat(EvMems(s)) \o TcMems(s) \o Flat([k \in Range(Len(s.trks)) |-> s.trks[k].objs]) \o s.arr
